@@ -174,7 +174,11 @@ func c07(c *core.Check) {
 	} else {
 		c.Undecided("C07-R2", "Timestamp", "-", "case not found")
 	}
-	c.Floor("C07-R2", 4)
+	if pll := c.MustFn("C07-R2", processLogLine); pll != nil {
+		// the register lives in the per-line thread: "otherwise it returns the current wall-clock time" needs a fresh (zero) register per line
+		threadFreshness(c, "C07-R2", pll)
+	}
+	c.Floor("C07-R2", 8)
 
 	c.Rule("C07-R3", "STAMP: every datum update call in execute (datum.SetInt/SetFloat/SetString/IncIntBy/DecIntBy) passes t.time as its timestamp; BaseDatum.stamp stores time.Now() exactly when the given time IsZero")
 	nst := 0
@@ -194,7 +198,9 @@ func c07(c *core.Check) {
 	})
 	if sf := c.MustFn("C07-R3", "internal/metrics/datum.(*BaseDatum).stamp"); sf != nil {
 		okS := false
-		for _, is := range ifsWhere(sf, func(is *ast.IfStmt) bool { return strings.HasSuffix(strings.ReplaceAll(exprStr(is.Cond), " ", ""), ".IsZero()") && !strings.HasPrefix(exprStr(is.Cond), "!") }) {
+		for _, is := range ifsWhere(sf, func(is *ast.IfStmt) bool {
+			return strings.HasSuffix(strings.ReplaceAll(exprStr(is.Cond), " ", ""), ".IsZero()") && !strings.HasPrefix(exprStr(is.Cond), "!")
+		}) {
 			thenNow, elseGiven := false, false
 			ast.Inspect(is.Body, func(n ast.Node) bool {
 				if call, ok := n.(*ast.CallExpr); ok && sf.CalleeID(call) == "time.Now" {
